@@ -119,6 +119,18 @@ def one(cases, rng, tier, d, rep, dtname):
     cases.append(Case(None, impl, chk_val(box, lambda: tn.sqrt(tn.abs(nsq_exact())), exact=False, tol=1e-5 if dtname in ("f32", "c64") else 1e-12), "norm/qr/" + tag, nt, desc="norm() N=%s R=%s %s" % (N, list(x.R), dtname)))
     box, impl = boxed(lambda x=x: watched(x).norm().detach())
     cases.append(Case(None, impl, chk_val(box, lambda: tn.sqrt(tn.abs(nsq_exact())), exact=False, tol=1e-5 if dtname in ("f32", "c64") else 1e-12), "norm/autograd/" + tag, nt, desc="watched norm() N=%s" % N))
+    # --- norm on the QR branch for operands whose unfoldings have exactly ZERO LEADING columns (accumulator pattern zeros + z, 0*w + z) or
+    #     rank-deficient blocks (z + z): the triangular factors then have zero pivots
+    if d >= 2:
+        for nm, mk_ in (("zeros+z", lambda x=x: torchtt.zeros(list(x.N), dtype=x.cores[0].dtype) + x), ("0w+z", lambda x=x: (x * 0) + x), ("z+z", lambda x=x: x + x)):
+            xz = mk_()
+            dxz = dense_of(xz)
+            box, impl = boxed(lambda xz=xz: xz.norm())
+            cases.append(Case(None, impl, chk_val(box, lambda dxz=dxz: tn.sqrt(tn.abs((dxz * dxz.conj()).sum())), exact=False, tol=1e-5 if dtname in ("f32", "c64") else 1e-12),
+                              "norm/qr-zero-pivots/%s/%s" % (nm, tag), True, desc="norm() of %s N=%s" % (nm, N)))
+            box, impl = boxed(lambda xz=xz: xz.norm(True))
+            cases.append(Case(None, impl, chk_val(box, lambda dxz=dxz: (dxz * dxz.conj()).sum(), exact=False, tol=1e-5 if dtname in ("f32", "c64") else 1e-12),
+                              "norm/qr-squared-zero-pivots/%s/%s" % (nm, tag), True, desc="norm(True) of %s N=%s" % (nm, N)))
     # --- operators: sum, norm, bilinear form
     if d <= 4:
         M = rand_modes(rng, d, 1, 3)
